@@ -9,13 +9,13 @@ ORGS = ["rgb8", "rgb8p", "rgb565", "gray1", "gray4", "rgb222", "rgb32f"]
 RANGE = {"rgb8": 1 << 24, "rgb8p": 1 << 24, "rgb565": 1 << 16, "gray1": 2, "gray4": 16, "rgb222": 64, "rgb32f": 512, "gray8": 256, "bgr8": 1 << 24}
 PADS = {"rgb8": [0, 1, 2], "rgb8p": [0, 1, 3], "rgb565": [0, 2], "gray1": [0, 1, 3, 5], "gray4": [0, 1, 4, 5], "rgb222": [0, 1, 2, 7], "rgb32f": [0, 4], "gray8": [0, 1], "bgr8": [0, 3]}
 BITS = {"gray1", "gray4", "rgb222"}
-KINDS = ["full", "sub", "xstep", "trans"]
+KINDS = ["full", "sub", "xstep", "trans", "flipx", "flipy"]
 CROSS = ["rgb8>rgb8p", "rgb8p>rgb8", "rgb8>bgr8", "gray8>rgb8"]
 DIMS_Q = [(0, 0), (1, 1), (3, 2), (5, 1), (1, 4), (4, 3), (0, 3), (2, 0), (2, 2), (5, 5)]
 BUILDS = list(range(7)) + [9]
 
 def opar(r, org, kind):
-    o = {"full": 0, "sub": r.choice([0, 1, 3, 4, 5, 7, 8]), "xstep": r.below(2), "trans": 0}[kind]
+    o = {"full": 0, "sub": r.choice([0, 1, 3, 4, 5, 7, 8]), "xstep": r.below(2), "trans": 0, "flipx": 0, "flipy": 0}[kind]
     if org in BITS: o += 9 * r.below(8)          # first pixel at an odd bit offset of the buffer
     return o
 
@@ -136,7 +136,7 @@ def run(ctx, ops=None):
         ctx.cov["input_distribution"] = {"per_org": dist, "per_algorithm": algs, "per_kind_pair": kinds}
     return vlib.finish(ctx, "proof", obligations, discharged,
         rule="one op line = one algorithm call; organisations rgb8 interleaved / rgb8 planar / rgb565 packed / gray1, gray4, rgb222 bit-aligned (first pixel at every bit offset) / rgb32f, "
-             "plus the cross pairs rgb8<->rgb8 planar, rgb8->bgr8, gray8->rgb8; every ordered pair of view kinds {full, sub-view, x-stepped (1-D traversable and not), transposed} with row padding; "
+             "plus the cross pairs rgb8<->rgb8 planar, rgb8->bgr8, gray8->rgb8; every ordered pair of view kinds {full, sub-view, x-stepped (1-D traversable and not), transposed, flipped left-right (negative x step), flipped up-down (negative row step)} with row padding; "
              "sizes 0..5 (quick) / 0..12 (thorough) incl. empty; equal_pixels with identical content and a single differing pixel at positions of the view, +-0.0 and NaN for float; "
              "non-trivial = at least two pixels and not (contiguous unpadded full view on both sides); distinct op lines counted",
         samples=samples, distinct_nontrivial=distinct, assumptions=ASSUME, trusted_base=vlib.TRUSTED_BASE,
